@@ -4,7 +4,7 @@
    (wf_cfg: shard WAL on, member-local clamp of ClearEntryLog, propose ids never reused); Refuted.v shows what fails
    for today's variants. Not expressible here (partial claim): timing, timeouts, real network behaviour. *)
 From Coq Require Import List Arith NArith ZArith Bool Lia Permutation.
-From OG Require Import C05.Model C05.Proofs C05.Invariant C05.Theorems C05.Final C05.Trunc C05.TruncProofs C05.Catchup C05.ReadPath.
+From OG Require Import C05.Model C05.Proofs C05.Invariant C05.Theorems C05.Final C05.Trunc C05.TruncProofs C05.Catchup C05.ReadPath C05.Refine C05.RestartRace.
 Import ListNotations.
 
 Section C05.
@@ -398,3 +398,54 @@ Example caught_up_master_after_lagmaster_trace :
   | None => False
   end.
 Proof. vm_compute. split; reflexivity. Qed.
+
+(* ---------------------------------------------------------------- the decision model refines the group machine (Refine.v)
+   Layered machine: the group machine + a wall clock + one tolerance timer per node; TRound n ms runs Trunc.decide on
+   node n with what n sees of the group (leadership, who is up, its snapshot index, its entry-file layout) and performs
+   the decision as the TruncPropose / TruncForce event of the group machine. For every raft oracle, timer variant, T. *)
+Theorem truncation_decision_refines_group_machine : forall raft_ok tc T tes ts ts',
+  trun raft_ok tc T ts tes = Some ts' -> exists es, run raft_ok (tb ts) es = Some (tb ts').
+Proof. exact trun_refines. Qed.
+Print Assumptions truncation_decision_refines_group_machine.
+
+(* a round whose decision proposes idx appends exactly ClearEntryLog(idx) to the leader's log: genProposeData with the
+   file ids SlotGe reports relative to the present log and the group machine's trunc_idx agree on it *)
+Theorem round_appends_exactly_the_decided_index : forall raft_ok tc T ts n ms ts' idx,
+  tstep raft_ok tc T ts (TRound n ms) = Some ts' ->
+  (snd (decide tc T (lay_of (tb ts) n) (ttim ts n) (round_of ts n ms)) = DHealthy idx \/
+   snd (decide tc T (lay_of (tb ts) n) (ttim ts n) (round_of ts n ms)) = DForce idx) ->
+  leader (tb ts) = Some n /\
+  tb ts' = set_node (tb ts) n (with_elog (nodes (tb ts) n) (elog (nodes (tb ts) n) ++ [EClear (N.to_nat idx)])).
+Proof. exact round_appends_decision. Qed.
+Print Assumptions round_appends_exactly_the_decided_index.
+
+(* group level, repaired timer rule (today's code since 5ce0b1e): in every reachable state of the layered machine, a node
+   whose decision forces a truncation now last saw every member alive (in any role) more than T ago *)
+Theorem group_forced_truncation_not_within_tolerance_of_health : forall raft_ok T c tes ts n ms idx z,
+  trun raft_ok tcfg_repaired T (tinit c) tes = Some ts ->
+  snd (decide tcfg_repaired T (lay_of (tb ts) n) (ttim ts n) (round_of ts n ms)) = DForce idx ->
+  tseen ts n = Some z -> (T < tclock ts - z)%Z.
+Proof. exact group_forced_after_tolerance. Qed.
+Print Assumptions group_forced_truncation_not_within_tolerance_of_health.
+
+(* a layered run under the reference oracle: healthy round (ClearEntryLog(1) proposed), member 2 killed, rounds while
+   the tolerate time (360) runs, forced round after 400 *)
+Example layered_run_demo :
+  match trun raft_ref tcfg_repaired 360 (tinit (cfg_today 3 2))
+        [ TBase (RElect 0); TBase (Propose 0 [(1%N, 10%Z)]); TBase (RReplicate 1 1); TBase (RReplicate 2 1); TBase (RCommit 1);
+          TBase (RLearn 0 1); TBase (Apply 0); TBase (UpdSnapc 0); TBase (FlushSwap 0); TBase (SnapPersist 0);
+          TRound 0 [1; 1; 1]%N; TBase (Kill 2); TTick 10; TRound 0 [2; 2; 1]%N; TTick 400; TRound 0 [2; 2; 1]%N ] with
+  | Some ts => elog (nodes (tb ts) 0) = [EData 0 1%N [(1%N, 10%Z)]; EClear 1; EClear 1] /\ ttim ts 0 = None /\ tclock ts = 410%Z
+  | None => False
+  end.
+Proof. vm_compute. repeat split. Qed.
+
+(* ---------------------------------------------------------------- restart replay before newer entries (RestartRace.v) *)
+(* repaired order (the commit reader waits for the restart replay): if the restart reconstructs a prefix of the log,
+   applying the entries that follow gives the image of the longer prefix - log order is kept *)
+Theorem restart_replay_before_newer_entries_is_log_order : forall c n x es pre,
+  sim (view (restart_node c x)) (ents_store pre) ->
+  sim (view (replay_then_apply c n x es)) (ents_store (pre ++ es)) /\
+  applied (replay_then_apply c n x es) = hcommit x + length es.
+Proof. exact replay_then_apply_log_order. Qed.
+Print Assumptions restart_replay_before_newer_entries_is_log_order.
